@@ -3,15 +3,15 @@ CHECK_DEADLOCK FALSE
 VIEW view
 INVARIANTS C03weak
 CONSTANTS
-  Streams <- Streams3
-  Script <- ScriptR3
+  Streams <- Streams2H
+  Script <- Script2H
   Floor = 0
   AtomicSend = TRUE
   TickFix = TRUE
   SwallowAllowed = TRUE
-  Seek <- Seek3
-  CollOf <- CollOf3
+  Seek <- Seek2H
+  CollOf <- CollOf2H
   JoinLifts = TRUE
   StartAllFirst = FALSE
-  PChanOf <- PChanSame
-  InitRaises = TRUE
+  PChanOf <- PChan2H
+  InitRaises = FALSE
